@@ -2620,4 +2620,19 @@ theorem C04_unwrap_extended_texts_simpl (f : Forest) (hi : f.Inv) (n x : Nat) (v
 example : compWitness.firstChild 3 = some 4 ∧ (compWitness.removeElement 3).prevSibling 4 = some 2 ∧
     compWitness.prevSibling 3 = some 2 ∧ compWitness.lastChild 3 = some 7 := by decide +kernel
 
+/-- ⟦C04_replaceSites_simpl⟧ The extra guard site of `replaceSites` (the previous sibling of `b`, listed once more when
+    the reference node of the `insert_after` is `b` itself) is empty under the invariant: with the subtree `a` taken out
+    the forest still has distinct handles (`Forest.W` of `f.dropSubtree a`), so no node is its own previous sibling.
+    `Forest.replaceSites0` is `replaceSites` with the plain `insertAfterSites`. -/
+theorem C04_replaceSites_simpl (f : Forest) (hi : f.Inv) (a b : Nat) : f.replaceSites a b = f.replaceSites0 a b :=
+  Forest.replaceSites_simpl hi a b
+
+/-- `C04_replace_extended_texts` over the shorter list. -/
+theorem C04_replace_extended_texts_simpl (f : Forest) (hi : f.Inv) (a b x : Nat) (v v' : Value)
+    (hv : f.value? x = some v) (hv' : (f.replace a b).1.value? x = some v')
+    (hx : x ∉ f.replaceSites0 a b) : v' = v :=
+  Forest.replace_value_exact hi a b hv hv' (by rw [Forest.replaceSites_simpl hi a b]; exact hx)
+
+example : compWitness.replaceSites0 3 11 = [2, 8, 2] ∧ compWitness.replaceSites0 10 11 = [9] := by decide +kernel
+
 end XotModel.Props
